@@ -484,7 +484,9 @@ ADAPTORS = {
     "mma+dass": ["mma", "dass"],
     "mma+ass": ["mma", "ass"],
     "mma-window+dass": ["mma-window", "dass"],
-    "mma-swap": ["mma-swap"],
+    "mma-window": ["mma-window"],
+    "mma-swap": ["mma-swap:5"],
+    "mma-swap25": ["mma-swap:25"],
 }
 
 
@@ -499,8 +501,8 @@ def adaptor(kind):
     a = {"id": "ad.mm", "type": "MassMatrixAdaptor", "mass_matrix": "mm", "parameters": ["h"], "update_frequency": 2}
     if kind == "mma-window":
         a["variance_window"] = 1
-    if kind == "mma-swap":
-        a["swap_every"] = 3
+    if kind.startswith("mma-swap"):
+        a["swap_every"] = int(kind.split(":")[1]) if ":" in kind else 3
     return a
 
 
@@ -1131,10 +1133,16 @@ def mcmc_configs(ck: Check):
         cfgs.append({"ops": [o], "adaptors": "none"})
     for a in ADAPTORS:
         c = {"ops": ["hmc"], "adaptors": a}
-        if a == "mma-window+dass":
-            c.update(iters=120, freq=40)  # the window only starts to drop samples after 100 of them
+        if a in ("mma-window+dass", "mma-window"):
+            # the window only starts to drop samples after 100 of them: checkpoints before (35, 70) and after (105) that
+            c.update(iters=120, freq=35, points="all")
         if a == "mma-swap":
-            c.update(iters=12, freq=4)  # swaps at 3, 6, 9, 12: checkpoints between two swaps
+            # swap every 5: checkpoints at 3, 6, 9, 12, 15 = every offset 3, 1, 4, 2, 0 inside the swap period, the second
+            # estimator holding 3, 1, 4, 2, 0 samples
+            c.update(iters=16, freq=3, points="all")
+        if a == "mma-swap25":
+            # checkpoints at 20 (before the first swap), 40 (15 samples in the second estimator), 60
+            c.update(iters=60, freq=20, points="all")
         cfgs.append(c)
     cfgs.append({"ops": list(OPERATORS), "adaptors": "mma+dass", "iters": 36, "freq": 12})
     cfgs.append({"ops": ["sliding", "hmc"], "adaptors": rng.choice(list(ADAPTORS))})
@@ -1266,7 +1274,7 @@ def run(ck: Check):
         for cfg in ocfgs:
             run_cfg(runner, "Optimizer", cfg, points)
         for cfg in mcmc_configs(ck):
-            run_cfg(runner, "MCMC", cfg, "all" if cfg["iters"] <= 36 else points)
+            run_cfg(runner, "MCMC", cfg, cfg.get("points") or ("all" if cfg["iters"] <= 36 else points))
         for _ in range(1 if not ck.thorough() else 4):
             run_cfg(runner, "HMC", {"iters": ck.rng.choice([6, 9]), "freq": ck.rng.choice([2, 3]), "dtype": ck.rng.choice(["float32", "float64"]),
                                     "seed": ck.rng.randrange(1, 1000)}, "all")
